@@ -502,9 +502,11 @@ class Gen:
             sc["ro"].add(n)
             body2 = [x for x in body if x.get("k") != "if" or x["a"].get("k") not in ("continue",)]
             inner2 = s_block([s_decl(i, T("int"), i_e(cast(T("int"), var(n))))] + body2 + [s_expr(incdec(var(n), dec=True))])
+            # (the counter is set right in front of the loop, not by its declaration: the goto patterns hoist declarations
+            # and may re-enter the loop, and a do-while entered with n == 0 would run 2^32 times)
             if style < 0.8:
-                return [s_decl(n, T("uint"), i_e(lit("uint", k))), s_while(bin_("!=", var(n), lit("int", 0)), inner2)]
-            return [s_decl(n, T("uint"), i_e(lit("uint", k))), s_do(inner2, bin_("!=", var(n), lit("int", 0)))]
+                return [s_decl(n, T("uint"), i_e(lit("uint", 0))), s_asg("=", var(n), lit("uint", k)), s_while(bin_("!=", var(n), lit("int", 0)), inner2)]
+            return [s_decl(n, T("uint"), i_e(lit("uint", 0))), s_asg("=", var(n), lit("uint", k)), s_do(inner2, bin_("!=", var(n), lit("int", 0)))]
         if c < 0.87:
             sel = bin_("&", self.expr(sc), lit("int", 3))
             if r.random() < 0.3:
@@ -626,12 +628,99 @@ class Gen:
                     out += [s_asg("=", l, start), s_asg("=", var(yn), e), s_obs(var(yn)), s_obs(l)]
         return [s_block(out)]
 
+    def struct_sids(self):
+        return [i + 1 for i, q in enumerate(self.structs) if not q.get("union") and not q.get("_tagged")]
+
+    def unions(self, sc):
+        """unions used member-wise (the member last stored is the one read: 6.5.2.3), copies of whole unions, a tagged variant
+        struct, union initialisers for the first and for a designated member, static and automatic"""
+        r = self.r
+        ssids = self.struct_sids()
+        members = []
+        for j in range(r.randrange(2, 5)):
+            k = r.random()
+            if k < 0.55:
+                members.append(("m%d" % j, T(r.choice(ALL)), 0))
+            elif k < 0.7:
+                members.append(("m%d" % j, F(r.choice(["double", "float"])), 0))
+            elif k < 0.85 or not ssids:
+                members.append(("m%d" % j, A(T(r.choice(ALL)), r.randrange(2, 4)), 0))
+            else:
+                members.append(("m%d" % j, St(r.choice(ssids)), 0))
+        self.structs.append(struct("U%d" % (len(self.structs) + 1), members, union=True))
+        uid = len(self.structs)
+        self.structs.append(struct("TV%d" % (len(self.structs) + 1), [("tag", T("int"), 0), ("u", St(uid), 0), ("after", T(r.choice(ALL)), 0)]))
+        self.structs[-1]["_tagged"] = True
+        tid = len(self.structs)
+        fields = self.structs[uid - 1]["fields"]
+
+        def val_init(f):
+            t = f["t"]
+            if t["k"] == "i":
+                return i_e(self.lit_for(t["n"]))
+            if t["k"] == "f":
+                return i_e(flit(t["n"], r.random() < 0.3, self.fmag(t["n"], r.random() < 0.4)))
+            if t["k"] == "a":
+                return i_list([i_e(self.lit_for(t["t"]["n"])) for _ in range(r.randrange(1, t["n"] + 1))])
+            fs = self.ifields(t["id"])
+            return i_list([i_e(self.lit_for(g["t"]["n"], small=True)) for g in fs[:r.randrange(1, len(fs) + 1)]])
+
+        def reads(base, f):
+            t, m = f["t"], mem(base, f["n"])
+            if t["k"] == "i":
+                return [s_obs(m)]
+            if t["k"] == "f":
+                return [s_obs(bin_("==", m, m)), s_obs(bin_("<", m, flit("double", False, 5)))]
+            if t["k"] == "a":
+                return [s_obs(idx(m, lit("int", j))) for j in range(t["n"])]
+            return [s_obs(mem(m, g["n"])) for g in self.ifields(t["id"])]
+
+        def store(base, f):
+            t, m = f["t"], mem(base, f["n"])
+            if t["k"] == "i":
+                return [s_asg("=", m, self.expr(sc, 2))]
+            if t["k"] == "f":
+                return [s_asg("=", m, flit(t["n"], r.random() < 0.3, self.fmag(t["n"], False)))]
+            if t["k"] == "a":
+                return None                      # an array member becomes active through an initialiser or a whole-union copy only
+            others = [n for n, q in sc["structs"].items() if q == t["id"]]
+            return [s_asg("=", m, var(r.choice(others)))] if others else None
+
+        out = []
+        un1, un2, gn, tvn = self.fresh("uv"), self.fresh("uw"), self.fresh("gu"), self.fresh("tv")
+        f0 = fields[0]
+        fd = r.choice(fields)
+        # static: designated member; automatic: first member
+        self.globals.append(s_decl(gn, St(uid), i_um(fd["n"], val_init(fd))))
+        out += reads(var(gn), fd)
+        out.append(s_decl(un1, St(uid), i_list([val_init(f0)])))
+        out += reads(var(un1), f0)
+        out.append(s_decl(un2, St(uid), i_e(var(gn))))            # copy of a whole union
+        out += reads(var(un2), fd)
+        for _ in range(r.randrange(2, 5)):
+            f = r.choice(fields)
+            st = store(var(un1), f)
+            if st:
+                out += st + reads(var(un1), f)
+                if r.random() < 0.5:
+                    out += [s_asg("=", var(un2), var(un1))] + reads(var(un2), f) + reads(var(un1), f)
+        # tagged variant: the union sits between two ordinary members
+        ft = r.choice(fields)
+        out.append(s_decl(tvn, St(tid), i_list([i_e(lit("int", 1)), i_um(ft["n"], val_init(ft)), i_e(self.lit_for(self.structs[tid - 1]["fields"][2]["t"]["n"]))])))
+        out += [s_obs(mem(var(tvn), "tag"))] + reads(mem(var(tvn), "u"), ft) + [s_obs(mem(var(tvn), "after"))]
+        f = r.choice(fields)
+        st = store(mem(var(tvn), "u"), f)
+        if st:
+            out += st + [s_asg("=", mem(var(tvn), "tag"), lit("int", 2))] + reads(mem(var(tvn), "u"), f) + [s_obs(mem(var(tvn), "tag")), s_obs(mem(var(tvn), "after"))]
+        out += [s_asg("=", mem(var(tvn), "u"), var(gn))] + reads(mem(var(tvn), "u"), fd) + [s_obs(mem(var(tvn), "after"))]
+        return [s_block(out)]
+
     def arrstruct(self, sc):
         """arrays of structs: element addresses scale by the struct size (padding included), element copies, pointers stepping over elements"""
         r = self.r
-        if not self.structs:
+        if not self.struct_sids():
             return []
-        sid = r.randrange(1, len(self.structs) + 1)
+        sid = r.choice(self.struct_sids())
         fs = self.ifields(sid)
         n, ln = self.fresh("as"), r.randrange(2, 5)
         rows = [i_list([i_e(self.lit_for(f["t"]["n"], small=r.random() < 0.5)) for f in fs[:r.randrange(1, len(fs) + 1)]]) for _ in range(r.randrange(1, ln + 1))]
@@ -799,7 +888,7 @@ class Gen:
                     args[len(ptypes) + j] = cast(TY(tn), args[len(ptypes) + j]) if tn not in ("float", "double") or args[len(ptypes) + j]["k"] != "flit" else args[len(ptypes) + j]
                 self.vcalls.append((name, args))
         sc = self.scope(g)
-        body = self.stmts(sc, r.randrange(6, 14), 0)
+        body = self.stmts(sc, getattr(self, "base_n", None) or r.randrange(6, 14), 0)
         for fam in getattr(self, "force", ()):       # agg_program: make sure the aggregate / sequencing families occur
             body += getattr(self, fam)(sc)
         # goto patterns at the top level of main: all top-level declarations are hoisted before the first label
@@ -918,7 +1007,10 @@ def vm_program(rng, charsigned):
 def agg_program(rng, charsigned):
     """a general program that is certain to contain nested members, arrays of structs, pointer walks and sequenced side effects"""
     g = Gen(rng)
-    g.force = ["bfops", "nested", "arrstruct", "ptrwalk", "seqfx", "strings", "nested", "arrstruct", "seqfx", "strings", "bfops"]
+    # (two shorter kinds rather than one long program: CSem's cost grows with the length of a run times the size of its memory)
+    g.force = rng.choice([["bfops", "nested", "arrstruct", "ptrwalk", "seqfx", "strings"],
+                          ["unions", "strings", "seqfx", "bfops", "unions"]])
+    g.base_n = rng.randrange(2, 6)
     p = g.program(charsigned)
     return p
 
@@ -941,7 +1033,7 @@ def random_programs(ctx, objdir, runtime):
     n_sw = 6 if ctx.quick else 60
     n_vm = 8 if ctx.quick else 120
     n_fp = 8 if ctx.quick else 120
-    n_agg = 10 if ctx.quick else 150
+    n_agg = 12 if ctx.quick else 200
     n_refine = 12 if ctx.quick else 80
     progs, fam_of = [], {}
     for i in range(n + n_init + n_sw + n_vm + n_fp + n_agg):
